@@ -712,7 +712,7 @@ pub fn gen_case(r: &mut Rng, cfg: &GenCfg) -> Case {
             }
         } else {
             // savepoint operations (mostly inside a transaction)
-            let names = ["a", "b", "c"];
+            let names = ["a", "b", "c", "d"];
             if !in_txn && r.chance(4, 5) {
                 in_txn = true;
                 saves.clear();
